@@ -1111,6 +1111,14 @@ static std::string binder_type_declaration(const type_t& type)
     return (type.get_kind() == CONSTANT ? type.get(0) : type).declaration();
 }
 
+/** The optional "; runs" part of an SMC bound: -1 encodes its absence. */
+static std::ostream& print_runs(std::ostream& os, const expression_t& runs, bool old)
+{
+    if (runs.get_kind() == CONSTANT && runs.get_type().is_integer() && runs.get_value() == -1)
+        return os;
+    return runs.print(os << "; ", old);
+}
+
 std::ostream& expression_t::print(std::ostream& os, bool old) const
 {
     const int precedence = get_precedence_or_default(*this);
@@ -1119,29 +1127,42 @@ std::ostream& expression_t::print(std::ostream& os, bool old) const
     int nb;
 
     switch (data->kind) {
+    // operands: {runs, bound type or bounded expression, bound, predicate, probability | until-predicate}
     case PROBA_MIN_BOX: flag = true; [[fallthrough]];
     case PROBA_MIN_DIAMOND:
         os << "Pr[";
-        print_bound_type(os, get(0));
-        get(1).print(os, old);
+        print_bound_type(os, get(1));
+        get(2).print(os, old);
+        print_runs(os, get(0), old);
         os << (flag ? "]([] " : "](<> ");
-        get(2).print(os, old) << ") >= " << get(3).get_double_value();
+        get(3).print(os, old) << ") >= ";
+        get(4).print(os, old);
         break;
 
     case PROBA_BOX: flag = true; [[fallthrough]];
     case PROBA_DIAMOND:
         os << "Pr[";
-        print_bound_type(os, get(0));
-        get(1).print(os, old) << (flag ? "]([] " : "](<> ");
-        get(2).print(os, old) << ")";
+        print_bound_type(os, get(1));
+        get(2).print(os, old);
+        print_runs(os, get(0), old);
+        if (flag || get(4).is_true()) {
+            os << (flag ? "]([] " : "](<> ");
+            get(3).print(os, old) << ")";
+        } else {
+            os << "](";
+            get(3).print(os, old) << " U ";
+            get(4).print(os, old) << ")";
+        }
         break;
 
+    // operands: {runs, bound type or bounded expression, bound, aggregation (0 min, 1 max), expression}
     case PROBA_EXP:
         os << "E[";
-        print_bound_type(os, get(0));
-        get(1).print(os, old) << "; ";
-        get(2).print(os, old) << "] (" << (get(4).get_value() ? "max: " : "min: ");
-        get(3).print(os, old) << ")";
+        print_bound_type(os, get(1));
+        get(2).print(os, old);
+        print_runs(os, get(0), old);
+        os << "] (" << (get(3).get_value() ? "max: " : "min: ");
+        get(4).print(os, old) << ")";
         break;
 
     case PROBA_CMP:
